@@ -363,7 +363,7 @@ func (c39) NewRun(plan *simrt.Source, job *harn.Job) harn.Run {
 		r.net.B = simnet.Faults{}
 		r.net.A = simnet.Faults{ShortReads: r.net.A.ShortReads, ShortWrite: r.net.A.ShortWrite}
 		for i, n := 0, plan.Draw(7); i < n; i++ {
-			r.rawScript = append(r.rawScript, plan.Draw(7))
+			r.rawScript = append(r.rawScript, plan.Draw(8))
 		}
 		r.net.Desc = fmt.Sprintf("RAW PEER script=%v cap=%d A=%+v", r.rawScript, r.net.Cap, r.net.A)
 	}
